@@ -30,6 +30,7 @@ RULE = ('Three generated dimensions. (1) Histories: a rule-based state machine d
         'Non-trivial: history with >=3 calls of which >=2 share an argument object or follow a failing call; seed case whose program has a '
         'multi-name global/nonlocal statement or >=2 equally frequent bindings; schedule with >=5 forced switches while two threads are inside '
         'python_minifier. Distinct = sha256 of the history / (program, options) / (sources, schedule).')
+RULE += ' The histories share one of three caller-owned RemoveAnnotationsOptions objects (incl. all-true) and the pool has sources with sensitive classes nested in each other; the schedule pool has constant tables that keep a thread inside the folder and the printers.'
 ASSUMPTIONS = ['a process forked from a parent that imported python_minifier but never called it is "fresh"',
                'interleavings are owned at python_minifier function-call granularity only', 'hash seeds are sampled (4 quick / 16 thorough)']
 
